@@ -164,7 +164,7 @@ func c06HasUnrepresentable(v *c06V) bool {
 
 // VerifC06Encode: the JSON value of a document equals its YAML data-model value; unrepresentable floats are an error.
 func VerifC06Encode() {
-	shape := verifChoice("shape", 6)
+	shape := verifChoice("shape", 8)
 	var root *yaml.Node
 	var ref *c06V
 	switch shape {
@@ -190,6 +190,16 @@ func VerifC06Encode() {
 		n1.Anchor = "x"
 		root = vMap(vStr("a"), n1, vStr("b"), &yaml.Node{Kind: yaml.AliasNode, Value: "x", Alias: n1})
 		ref = &c06V{kind: 6, keys: []string{"a", "b"}, items: []*c06V{v1, v1}}
+	case 6: // a key that is no scalar (`? [p] : v`) has no JSON counterpart: an error, not some other key
+		n1, _ := c06Scalar("v1")
+		keyKind := verifChoice("keyKind", 3)
+		key := []*yaml.Node{vSeq(vStr("p")), vMap(vStr("p"), vStr("q")), vSeq()}[keyKind]
+		root, ref = vMap(vStr("k"), vInt("1"), key, n1), &c06V{kind: 7}
+	case 7: // scalar keys that are not strings become the JSON strings of their text
+		n1, v1 := c06Scalar("v1")
+		d := verifStrN("d", 1, "09")
+		root = vMap(vInt(d), n1, vS("!!bool", "true"), vInt("2"))
+		ref = &c06V{kind: 6, keys: []string{d, "true"}, items: []*c06V{v1, {kind: 2, i: 2}}}
 	default: // an anchor name defined twice: an alias stands for the most recent definition before it
 		n1, v1 := c06Scalar("v1")
 		n2, v2 := c06Scalar("v2")
@@ -200,10 +210,10 @@ func VerifC06Encode() {
 	}
 	doc := vDoc(root)
 	b, err := doc.MarshalJSON()
-	label := []string{"scalar", "seq", "map", "nested", "alias", "anchor-redefined"}[shape]
+	label := []string{"scalar", "seq", "map", "nested", "alias", "anchor-redefined", "non-scalar-key", "non-string-keys"}[shape]
 	if c06HasUnrepresentable(ref) {
 		verifCover("C06/encode/unrepresentable")
-		verifAssert(err != nil, "C06/unrepresentable-float-encoded-as-something "+label)
+		verifAssert(err != nil, "C06/unrepresentable-value-encoded-as-something "+label)
 		return
 	}
 	verifAssert(err == nil, "C06/encode-error "+label)
